@@ -12,6 +12,11 @@ Definition task_eqb : task -> task -> bool := pair_eqb N.eqb N.eqb.
 
 Inductive status := Success | Keep | Fail | Repeat.
 
+(* operations another goroutine may issue while a Filter callback is running *)
+Inductive cop :=
+| CAddFirst (t : task) | CAddLast (t : task) | CAddAfter (id : N) (t : task) | CAddBefore (id : N) (t : task)
+| CRemove (id : N) | CRemoveFirst | CRemoveLast.
+
 Inductive op :=
 | AddFirst (t : task)
 | AddLast (t : task)
@@ -21,9 +26,19 @@ Inductive op :=
 | RemoveFirst
 | RemoveLast
 | Filter (keep : list N)                 (* keep the tasks whose id is listed *)
+| FilterDuring (keep : list N) (c : cop) (* Filter, and while its callback runs another goroutine
+                                            issues [c]: the queue's operations are atomic (one
+                                            lock section each), so [c] takes effect after the Filter *)
 | Start                                  (* start the worker goroutine *)
 | Return (st : status) (head after tail : list task).
                                          (* the blocked handler returns this TaskResult *)
+
+Definition to_op (c : cop) : op :=
+  match c with
+  | CAddFirst t => AddFirst t | CAddLast t => AddLast t
+  | CAddAfter id t => AddAfter id t | CAddBefore id t => AddBefore id t
+  | CRemove id => Remove id | CRemoveFirst => RemoveFirst | CRemoveLast => RemoveLast
+  end.
 
 Record state := mkState { items : list task; started : bool; running : option task }.
 
@@ -85,9 +100,10 @@ Definition auto_pick (s : state) : state :=
   else s.
 
 (* one operation: new state and the task returned by the operation, if any *)
-Definition step_raw (s : state) (o : op) : state * option task :=
+Definition step_simple (s : state) (o : op) : state * option task :=
   let set l := mkState l (started s) (running s) in
   match o with
+  | FilterDuring _ _ => (s, None)        (* not a simple operation: see step_raw *)
   | AddFirst t => (set (t :: items s), None)
   | AddLast t => (set (items s ++ [t]), None)
   | AddAfter id t => (set (add_after id t (items s)), None)
@@ -103,6 +119,13 @@ Definition step_raw (s : state) (o : op) : state * option task :=
       | None => (s, None)
       | Some p => (mkState (apply_result p st h a t (items s)) (started s) None, None)
       end
+  end.
+
+Definition step_raw (s : state) (o : op) : state * option task :=
+  match o with
+  | FilterDuring keep c =>
+      step_simple (mkState (filter (fun x => mem_N (tid x) keep) (items s)) (started s) (running s)) (to_op c)
+  | _ => step_simple s o
   end.
 
 Definition step (s : state) (o : op) : state * option task :=
